@@ -1,6 +1,6 @@
 (* C03 - theorems about the model of qpdf's object-level reader (File/RdModel.v): stream extents
    (validateStreamLineEnd + readStream), header rebasing (findHeader + OffsetInputSource). *)
-From QV Require Import Base.Bytes Lex.TokModel Obj.ParseModel File.XrefModel File.RdModel.
+From QV Require Import Base.Bytes Lex.TokModel Obj.ParseModel File.XrefModel File.RdModel File.StrictSyntax File.ReadStrict.
 From Coq Require Import Lia.
 Local Open Scope N_scope.
 
@@ -190,3 +190,72 @@ Proof.
   replace 1024%nat with (length junk + 0)%nat at 1 by lia.
   rewrite rd_find_header_skip by exact Hno. reflexivity.
 Qed.
+
+(* ------------------------------------------------------------------ concrete files (non-vacuity, and one divergence) *)
+(* a one-section classic file whose object 4 is `4 0 obj 1 0 R endobj` *)
+Definition rd_ex_ref : list N := [37; 80; 68; 70; 45; 49; 46; 52; 10; 49; 32; 48; 32; 111; 98; 106; 10; 60; 60; 32; 47; 84; 121; 112; 101; 32; 47; 67; 97; 116; 97; 108; 111; 103; 32; 47; 80; 97; 103; 101; 115; 32; 50; 32; 48; 32; 82; 32; 62; 62; 10; 101; 110; 100; 111; 98; 106; 10; 50; 32; 48; 32; 111; 98; 106; 10; 60; 60; 32; 47; 84; 121; 112; 101; 32; 47; 80; 97; 103; 101; 115; 32; 47; 75; 105; 100; 115; 32; 91; 51; 32; 48; 32; 82; 93; 32; 47; 67; 111; 117; 110; 116; 32; 49; 32; 62; 62; 10; 101; 110; 100; 111; 98; 106; 10; 51; 32; 48; 32; 111; 98; 106; 10; 60; 60; 32; 47; 84; 121; 112; 101; 32; 47; 80; 97; 103; 101; 32; 47; 80; 97; 114; 101; 110; 116; 32; 50; 32; 48; 32; 82; 32; 47; 77; 101; 100; 105; 97; 66; 111; 120; 32; 91; 48; 32; 48; 32; 57; 32; 57; 93; 32; 62; 62; 10; 101; 110; 100; 111; 98; 106; 10; 52; 32; 48; 32; 111; 98; 106; 10; 49; 32; 48; 32; 82; 10; 101; 110; 100; 111; 98; 106; 10; 120; 114; 101; 102; 10; 48; 32; 53; 10; 48; 48; 48; 48; 48; 48; 48; 48; 48; 48; 32; 54; 53; 53; 51; 53; 32; 102; 32; 10; 48; 48; 48; 48; 48; 48; 48; 48; 48; 57; 32; 48; 48; 48; 48; 48; 32; 110; 32; 10; 48; 48; 48; 48; 48; 48; 48; 48; 53; 56; 32; 48; 48; 48; 48; 48; 32; 110; 32; 10; 48; 48; 48; 48; 48; 48; 48; 49; 49; 53; 32; 48; 48; 48; 48; 48; 32; 110; 32; 10; 48; 48; 48; 48; 48; 48; 48; 49; 56; 50; 32; 48; 48; 48; 48; 48; 32; 110; 32; 10; 116; 114; 97; 105; 108; 101; 114; 10; 60; 60; 32; 47; 83; 105; 122; 101; 32; 53; 32; 47; 82; 111; 111; 116; 32; 49; 32; 48; 32; 82; 32; 62; 62; 10; 115; 116; 97; 114; 116; 120; 114; 101; 102; 10; 50; 48; 51; 10; 37; 37; 69; 79; 70; 10].
+(* "j" + a one-section classic file with two streams: CR LF after `stream`, data LF a b, /Length 6 0 R defined after the
+   stream; LF after `stream`, data x y LF, direct /Length *)
+Definition rd_ex_streams : list N := [106; 37; 80; 68; 70; 45; 49; 46; 52; 10; 49; 32; 48; 32; 111; 98; 106; 10; 60; 60; 32; 47; 84; 121; 112; 101; 32; 47; 67; 97; 116; 97; 108; 111; 103; 32; 47; 80; 97; 103; 101; 115; 32; 50; 32; 48; 32; 82; 32; 62; 62; 10; 101; 110; 100; 111; 98; 106; 10; 50; 32; 48; 32; 111; 98; 106; 10; 60; 60; 32; 47; 84; 121; 112; 101; 32; 47; 80; 97; 103; 101; 115; 32; 47; 75; 105; 100; 115; 32; 91; 51; 32; 48; 32; 82; 93; 32; 47; 67; 111; 117; 110; 116; 32; 49; 32; 62; 62; 10; 101; 110; 100; 111; 98; 106; 10; 51; 32; 48; 32; 111; 98; 106; 10; 60; 60; 32; 47; 84; 121; 112; 101; 32; 47; 80; 97; 103; 101; 32; 47; 80; 97; 114; 101; 110; 116; 32; 50; 32; 48; 32; 82; 32; 47; 77; 101; 100; 105; 97; 66; 111; 120; 32; 91; 48; 32; 48; 32; 57; 32; 57; 93; 32; 62; 62; 10; 101; 110; 100; 111; 98; 106; 10; 52; 32; 48; 32; 111; 98; 106; 10; 60; 60; 32; 47; 76; 101; 110; 103; 116; 104; 32; 54; 32; 48; 32; 82; 32; 62; 62; 10; 115; 116; 114; 101; 97; 109; 13; 10; 10; 97; 98; 13; 10; 101; 110; 100; 115; 116; 114; 101; 97; 109; 10; 101; 110; 100; 111; 98; 106; 10; 53; 32; 48; 32; 111; 98; 106; 10; 60; 60; 32; 47; 76; 101; 110; 103; 116; 104; 32; 51; 32; 62; 62; 10; 115; 116; 114; 101; 97; 109; 10; 120; 121; 10; 10; 101; 110; 100; 115; 116; 114; 101; 97; 109; 10; 101; 110; 100; 111; 98; 106; 10; 54; 32; 48; 32; 111; 98; 106; 10; 51; 10; 101; 110; 100; 111; 98; 106; 10; 120; 114; 101; 102; 10; 48; 32; 55; 10; 48; 48; 48; 48; 48; 48; 48; 48; 48; 48; 32; 54; 53; 53; 51; 53; 32; 102; 32; 10; 48; 48; 48; 48; 48; 48; 48; 48; 48; 57; 32; 48; 48; 48; 48; 48; 32; 110; 32; 10; 48; 48; 48; 48; 48; 48; 48; 48; 53; 56; 32; 48; 48; 48; 48; 48; 32; 110; 32; 10; 48; 48; 48; 48; 48; 48; 48; 49; 49; 53; 32; 48; 48; 48; 48; 48; 32; 110; 32; 10; 48; 48; 48; 48; 48; 48; 48; 49; 56; 50; 32; 48; 48; 48; 48; 48; 32; 110; 32; 10; 48; 48; 48; 48; 48; 48; 48; 50; 52; 48; 32; 48; 48; 48; 48; 48; 32; 110; 32; 10; 48; 48; 48; 48; 48; 48; 48; 50; 57; 50; 32; 48; 48; 48; 48; 48; 32; 110; 32; 10; 116; 114; 97; 105; 108; 101; 114; 10; 60; 60; 32; 47; 83; 105; 122; 101; 32; 55; 32; 47; 82; 111; 111; 116; 32; 49; 32; 48; 32; 82; 32; 62; 62; 10; 115; 116; 97; 114; 116; 120; 114; 101; 102; 10; 51; 48; 57; 10; 37; 37; 69; 79; 70; 10].
+
+Definition rd_has_item (d : rd_doc) (obj : N) (v : mobj) (data : option (list N)) : bool :=
+  existsb (fun it => (rdi_obj it =? obj) &&
+                     match rdi_val it, v with
+                     | MoInt a, MoInt b => (a =? b)%Z
+                     | MoDict _, MoDict _ => true
+                     | _, _ => false
+                     end &&
+                     match rdi_data it, data with
+                     | Some a, Some b => list_eqb N.eqb a b
+                     | None, None => true
+                     | _, _ => false
+                     end) (rdd_items d).
+
+(* the reader model reads the example with the two streams: header found at offset 1, no warning, the stream bytes are
+   exactly the /Length bytes (3 each: LF a b and x y LF), the indirect /Length defined after its stream is resolved;
+   the strict reader accepts the same file without the junk byte and finds the same extents *)
+Lemma rd_reads_example_lemma :
+  match rd_view rd_ex_streams, read_strict (tl rd_ex_streams) with
+  | RdDoc d, RsOk sf =>
+      rdd_shift d = 1 /\ rdd_warn d = [] /\
+      rd_has_item d 4 (MoDict []) (Some [10; 97; 98]) = true /\
+      rd_has_item d 5 (MoDict []) (Some [120; 121; 10]) = true /\
+      rd_has_item d 6 (MoInt 3) None = true /\
+      existsb (fun o => (so_num o =? 4) && match so_stream o with Some (_, l) => l =? 3 | None => false end) (sf_objs sf) = true
+  | _, _ => False
+  end.
+Proof. vm_compute. repeat split; reflexivity. Qed.
+
+(* a divergence between the strict reader (specification) and qpdf's reader: an indirect object whose value is itself
+   an indirect reference.  The strict reader accepts the file and gives object 4 the value `1 0 R`; Parser::parse_first
+   returns the integer 1 at once (the two-slot integer buffer that recognises `n g R` exists only inside containers),
+   readObject then finds `0` where it expects endobj and warns.  So the statement "the reader model agrees with the
+   strict reader on EVERY file the strict reader accepts" is false as it stands; it needs the hypothesis that no indirect
+   object is a bare reference. *)
+Lemma rd_toplevel_ref_differs_lemma :
+  match rd_view rd_ex_ref, read_strict rd_ex_ref with
+  | RdDoc d, RsOk sf =>
+      existsb (fun o => (so_num o =? 4) && match so_val o with SpRef 1 0 => true | _ => false end) (sf_objs sf) = true /\
+      rd_has_item d 4 (MoInt 1) None = true /\
+      existsb (fun w => match w with RdW_endobj => true | _ => false end) (rdd_warn d) = true
+  | _, _ => False
+  end.
+Proof. vm_compute. repeat split; reflexivity. Qed.
+
+(* ------------------------------------------------------------------ UNPROVED (statements kept for the record)
+   rd_reader_agrees_strict : forall file sf, read_strict file = RsOk sf -> rd_no_bare_ref_object sf ->
+       rd_lower_agree file (* Lex/TokModel.read_token and Obj/ParseModel.parse_object agree with StrictSyntax.next_tok /
+                              parse_obj, positions included, on every suffix of this file *) ->
+       exists d, rd_view file = RdDoc d /\ rdd_warn d = [] /\ rd_same_view d sf.
+     Not proved.  Where it stops: (a) it is false without rd_no_bare_ref_object (rd_toplevel_ref_differs_lemma above);
+     (b) the strict reader is written on StrictSyntax.next_tok / parse_obj and the reader model on TokModel / ParseModel:
+     the existing completeness theorems (next_token_complete, parse_complete_scalar, parse_complete_container) are stated against Lex/LexSpec and
+     Obj/SynSpec, not against StrictSyntax, and there is no suffix/position lemma for StrictSyntax.next_tok (needed to
+     equate `offset_of total rest` with the model's tell()); (c) the strict parse_indirect accepts a negative generation
+     in the `n g obj` header (Z.to_N makes it 0), which the reader model rejects (expected n g obj), so the per-object
+     statement also needs 0 <= g.  The per-object core (parse_indirect accepts at off  ->  rd_read_at returns the same
+     value and extent, no warning) was designed with these hypotheses but not finished.
+   rd_reads_writer_output : forall d, wf_doc d -> rd_view (write_doc d) reads d back.
+     Not proved: it is the composition of write_read_strict_lemma (Obj/C01FileProofs.v) with rd_reader_agrees_strict.
+   What IS proved about the reader: the stream-extent and header lemmas above, for all inputs; the agreement of the whole
+   view is tested (harness/c03read.py: model = qpdf = ISO ground truth on about 1200 aimed files per run). *)
